@@ -762,3 +762,788 @@ Proof.
   rewrite forallb_forall in Hnt. apply Forall_forall. intros t Ht i Hi.
   apply to_go_type_np; auto.
 Qed.
+
+(* ------------------------------------------------------------------ *)
+(* round trip: reading back single words                               *)
+
+Lemma be_val_pack_num_mod z : Z.of_N (be_val (pack_num z)) = z mod 2 ^ 256.
+Proof.
+  unfold pack_num. rewrite be_val_be_bytes, pow256_32.
+  assert (0 <= z mod 2 ^ 256 < 2 ^ 256) by (apply Z.mod_pos_bound; lia).
+  rewrite N.mod_small; lia.
+Qed.
+
+Lemma native_cases n : native_width n = true -> (n = 8 \/ n = 16 \/ n = 32 \/ n = 64)%N.
+Proof.
+  unfold native_width. destruct n as [|p]; [discriminate|].
+  do 7 (try destruct p as [p|p|]; try discriminate); auto.
+Qed.
+
+Lemma read_uint_big n b :
+  native_width n = false -> read_integer true n b = Ok (VInt (Z.of_N (be_val b))).
+Proof.
+  unfold native_width, read_integer. destruct n as [|p]; [reflexivity|].
+  repeat (destruct p as [p|p|]; try reflexivity; try discriminate).
+Qed.
+
+Lemma read_uint n z :
+  in_unsigned (int_width n) z = true -> read_integer true n (pack_num z) = Ok (VInt z).
+Proof.
+  unfold in_unsigned, int_width. intros H. destruct (native_width n) eqn:En.
+  - assert (Hx : Z.of_N (be_val (pack_num z)) = z).
+    { rewrite be_val_pack_num_mod. apply Z.mod_small.
+      assert (2 ^ Z.of_N n <= 2 ^ 256) by (apply Z.pow_le_mono_r; destruct (native_cases n En) as [->|[->|[->| ->]]]; lia).
+      lia. }
+    unfold read_integer. rewrite Hx.
+    destruct (native_cases n En) as [->|[->|[->| ->]]]; cbn [Z.of_N] in H;
+      match goal with |- (if ?c then _ else _) = _ => replace c with false by lia end; reflexivity.
+  - rewrite read_uint_big by assumption. rewrite be_val_pack_num_mod.
+    rewrite Z.mod_small by (cbn [Z.of_N] in H; lia). reflexivity.
+Qed.
+
+Lemma testbit_255 x : 0 <= x < 2 ^ 256 -> Z.testbit x 255 = (2 ^ 255 <=? x).
+Proof.
+  intros H. destruct (2 ^ 255 <=? x) eqn:E.
+  - apply Z.testbit_true; [lia|]. lia.
+  - apply not_true_is_false. intros Ht. apply Z.testbit_true in Ht; lia.
+Qed.
+
+Lemma decode_signed z : - 2 ^ 255 <= z < 2 ^ 255 ->
+  (if Z.testbit (z mod 2 ^ 256) 255
+   then - (((2 ^ 256 - 1) + (- (z mod 2 ^ 256))) + 1) else z mod 2 ^ 256) = z.
+Proof.
+  intros H. assert (0 <= z mod 2 ^ 256 < 2 ^ 256) by (apply Z.mod_pos_bound; lia).
+  rewrite testbit_255 by assumption.
+  destruct (2 ^ 255 <=? z mod 2 ^ 256) eqn:E; lia.
+Qed.
+
+Lemma read_int_big n b :
+  native_width n = false ->
+  read_integer false n b =
+  Ok (VInt (let ret := Z.of_N (be_val b) in
+            if Z.testbit ret 255 then - (((2 ^ 256 - 1) + (- ret)) + 1) else ret)).
+Proof.
+  unfold native_width, read_integer. destruct n as [|p]; [reflexivity|].
+  repeat (destruct p as [p|p|]; try reflexivity; try discriminate).
+Qed.
+
+Lemma in_signed_int_width n z : in_signed (int_width n) z = true -> - 2 ^ 255 <= z < 2 ^ 255.
+Proof.
+  unfold int_width. intros H. destruct (native_width n) eqn:En.
+  - apply (in_signed_bound n); [| |exact H]; destruct (native_cases n En) as [->|[->|[->| ->]]]; lia.
+  - unfold in_signed in H. cbn [Z.of_N] in H. lia.
+Qed.
+
+Lemma read_int n z :
+  in_signed (int_width n) z = true -> read_integer false n (pack_num z) = Ok (VInt z).
+Proof.
+  intros H. pose proof (in_signed_int_width n z H) as Hb.
+  destruct (native_width n) eqn:En.
+  - unfold read_integer. rewrite be_val_pack_num_mod, decode_signed by assumption.
+    unfold in_signed, int_width in H. rewrite En in H.
+    destruct (native_cases n En) as [->|[->|[->| ->]]]; cbn [Z.of_N] in H;
+      match goal with |- (if ?c then _ else _) = _ => replace c with false by lia end; reflexivity.
+  - rewrite read_int_big by assumption. cbv zeta.
+    now rewrite be_val_pack_num_mod, decode_signed.
+Qed.
+
+Lemma read_bool_pack (b : bool) : read_bool (pack_num (if b then 1 else 0)) = Ok (VBool b).
+Proof. destruct b; vm_compute; reflexivity. Qed.
+
+(* ------------------------------------------------------------------ *)
+(* placement of encoded components inside an output                    *)
+
+Definition at_off (out : list N) (o : Z) (b : list N) : Prop :=
+  exists pre post, out = pre ++ b ++ post /\ zlen pre = o.
+
+Lemma at_off_bound out o b : at_off out o b -> 0 <= o /\ o + zlen b <= zlen out.
+Proof.
+  intros (pre & post & -> & <-). rewrite !zlen_app.
+  pose proof (zlen_nonneg pre). pose proof (zlen_nonneg post). lia.
+Qed.
+
+Lemma at_off_slice out o b : at_off out o b -> gslice out o (o + zlen b) = Ok b.
+Proof. intros (pre & post & -> & <-). unfold gslice. now rewrite slice_app_mid. Qed.
+
+Lemma at_off_suffix out o b :
+  at_off out o b -> exists post, gslice out o (zlen out) = Ok (b ++ post).
+Proof.
+  intros (pre & post & -> & <-). exists post. unfold gslice. now rewrite slice_suffix.
+Qed.
+
+Lemma at_off_app_l out o a b : at_off out o (a ++ b) -> at_off out o a.
+Proof.
+  intros (pre & post & -> & <-). exists pre, (b ++ post). now rewrite <- app_assoc.
+Qed.
+
+Lemma at_off_app_r out o a b : at_off out o (a ++ b) -> at_off out (o + zlen a) b.
+Proof.
+  intros (pre & post & -> & <-). exists (pre ++ a), post. rewrite zlen_app.
+  now rewrite <- !app_assoc.
+Qed.
+
+Lemma at_off_0 (b post : list N) : at_off (b ++ post) 0 b.
+Proof. exists [], post. split; reflexivity. Qed.
+
+(* lengthPrefixPointsTo on a well-placed offset word / length word *)
+Lemma lpp_placed out idx o l rest :
+  zlen out < 2 ^ 63 ->
+  at_off out idx (pack_num o) -> at_off out o (pack_num l ++ rest) ->
+  0 <= l <= zlen rest ->
+  length_prefix_points_to idx out = Ok (o + 32, l).
+Proof.
+  intros Hout Hw Hb Hl.
+  pose proof (at_off_bound _ _ _ Hw) as Bw. rewrite zlen_pack_num in Bw.
+  pose proof (at_off_bound _ _ _ Hb) as Bb. rewrite zlen_app, zlen_pack_num in Bb.
+  unfold length_prefix_points_to.
+  pose proof (at_off_slice _ _ _ Hw) as Sw. rewrite zlen_pack_num in Sw. rewrite Sw. cbn [bind].
+  rewrite be_val_pack_num_mod, Z.mod_small by lia.
+  replace (o + 32 >? zlen out) with false by lia.
+  replace (2 ^ 63 <=? o + 32) with false by lia.
+  pose proof (at_off_slice _ _ _ (at_off_app_l _ _ _ _ Hb)) as Sl. rewrite zlen_pack_num in Sl.
+  replace (o + 32 - 32) with o by lia. rewrite Sl. cbn [bind].
+  rewrite be_val_pack_num_mod, Z.mod_small by lia.
+  replace (2 ^ 63 <=? o + 32 + l) with false by lia.
+  replace (o + 32 + l >? zlen out) with false by lia.
+  reflexivity.
+Qed.
+
+Lemma tpt_placed out idx o b :
+  zlen out < 2 ^ 63 ->
+  at_off out idx (pack_num o) -> at_off out o b ->
+  tuple_points_to idx out = Ok o.
+Proof.
+  intros Hout Hw Hb.
+  pose proof (at_off_bound _ _ _ Hw) as Bw. rewrite zlen_pack_num in Bw.
+  pose proof (at_off_bound _ _ _ Hb) as Bb. pose proof (zlen_nonneg b).
+  unfold tuple_points_to.
+  pose proof (at_off_slice _ _ _ Hw) as Sw. rewrite zlen_pack_num in Sw. rewrite Sw. cbn [bind].
+  rewrite be_val_pack_num_mod, Z.mod_small by lia.
+  replace (o >? zlen out) with false by lia.
+  replace (2 ^ 63 <=? o) with false by lia. reflexivity.
+Qed.
+
+Lemma be_bytes_app m n z :
+  be_bytes (m + n) z = be_bytes m (z / 256 ^ N.of_nat n)%N ++ be_bytes n z.
+Proof.
+  revert z. induction n as [|n IH]; intros z.
+  - rewrite Nat.add_0_r. cbn [be_bytes]. rewrite app_nil_r. cbn. now rewrite N.div_1_r.
+  - rewrite Nat.add_succ_r. cbn [be_bytes]. rewrite IH, app_assoc. do 3 f_equal.
+    replace (N.of_nat (S n)) with (N.succ (N.of_nat n)) by lia.
+    rewrite N.pow_succ_r', N.div_div by (try apply N.pow_nonzero; lia). reflexivity.
+Qed.
+
+(* binary.BigEndian.Uint64 of the last 8 bytes of an offset word *)
+Lemma last8_pack_num o : 0 <= o < 2 ^ 64 ->
+  exists w8, gslice (pack_num o) (zlen (pack_num o) - 8) (zlen (pack_num o)) = Ok w8
+             /\ Z.of_N (be_val w8) = o.
+Proof.
+  intros H. exists (be_bytes 8 (Z.to_N (o mod 2 ^ 256))). split.
+  - set (x := Z.to_N (o mod 2 ^ 256)).
+    assert (E : pack_num o = be_bytes 24 (x / 256 ^ N.of_nat 8)%N ++ be_bytes 8 x).
+    { unfold pack_num. fold x. change 32%nat with (24 + 8)%nat. apply be_bytes_app. }
+    rewrite E. set (pre := be_bytes 24 _). set (b := be_bytes 8 x).
+    pose proof (slice_app_mid pre b []) as S. rewrite app_nil_r in S.
+    rewrite zlen_app.
+    assert (Hb : zlen b = 8) by (unfold b; now rewrite zlen_be_bytes).
+    replace (zlen pre + zlen b - 8) with (zlen pre) by lia.
+    unfold gslice. now rewrite S.
+  - rewrite be_val_be_bytes. rewrite Z.mod_small by lia.
+    change (256 ^ N.of_nat 8)%N with (2 ^ 64)%N. rewrite N.mod_small; lia.
+Qed.
+
+(* a component is placed at head position idx; a dynamic one through the
+   offset word [off] *)
+Definition placedp (d : bool) (b : list N) (idx off : Z) (out : list N) : Prop :=
+  if d then at_off out idx (pack_num off) /\ at_off out off b else at_off out idx b.
+
+Fixpoint parts_placed (ps : list part) (idx off : Z) (out : list N) : Prop :=
+  match ps with
+  | [] => True
+  | (d, b) :: r =>
+      placedp d b idx off out /\
+      parts_placed r (idx + (if d then 32 else zlen b)) (if d then off + zlen b else off) out
+  end.
+
+Lemma parts_placed_intro ps : forall P M post off,
+  off = zlen P + head_len ps + zlen M ->
+  parts_placed ps (zlen P) off (P ++ heads_acc ps off ++ M ++ tails ps ++ post).
+Proof.
+  induction ps as [|[[|] b] r IH]; intros P M post off Hoff; cbn [parts_placed]; [exact I| |].
+  - cbn [heads_acc tails head_len] in *. split; [split|].
+    + exists P, (heads_acc r (off + zlen b) ++ M ++ (b ++ tails r) ++ post).
+      split; [|reflexivity]. now rewrite <- !app_assoc.
+    + exists (P ++ pack_num off ++ heads_acc r (off + zlen b) ++ M), (tails r ++ post).
+      split; [now rewrite <- !app_assoc|].
+      rewrite !zlen_app, zlen_pack_num, zlen_heads_acc. lia.
+    + specialize (IH (P ++ pack_num off) (M ++ b) post (off + zlen b)).
+      rewrite !zlen_app, zlen_pack_num in IH.
+      replace (P ++ (pack_num off ++ heads_acc r (off + zlen b)) ++ M ++ (b ++ tails r) ++ post)
+        with ((P ++ pack_num off) ++ heads_acc r (off + zlen b) ++ (M ++ b) ++ tails r ++ post)
+        by (now rewrite <- !app_assoc).
+      apply IH. lia.
+  - cbn [heads_acc tails head_len] in *. split.
+    + exists P, (heads_acc r off ++ M ++ tails r ++ post).
+      split; [|reflexivity]. now rewrite <- !app_assoc.
+    + specialize (IH (P ++ b) M post off). rewrite zlen_app in IH.
+      replace (P ++ (b ++ heads_acc r off) ++ M ++ tails r ++ post)
+        with ((P ++ b) ++ heads_acc r off ++ M ++ tails r ++ post)
+        by (now rewrite <- !app_assoc).
+      apply IH. lia.
+Qed.
+
+(* the body produced by the pack loop, followed by anything, has its parts placed *)
+Lemma pack_loop_placed ps off0 post :
+  heads_acc ps off0 = heads_acc ps (head_len ps) ->
+  parts_placed ps 0 (head_len ps) (pack_loop ps off0 [] [] ++ post).
+Proof.
+  intros Hh. rewrite pack_loop_eq. cbn [app]. rewrite Hh.
+  pose proof (parts_placed_intro ps [] [] post (head_len ps)) as H.
+  cbn [app] in H. rewrite zlen_nil in H. rewrite <- app_assoc. apply H. lia.
+Qed.
+
+(* ------------------------------------------------------------------ *)
+(* type sizes under the round-trip guard                               *)
+
+Lemma ty_rt_newtype t : ty_rt t = true -> ty_newtype t = true.
+Proof.
+  induction t using ty_ind'; cbn [ty_rt ty_newtype]; auto.
+  - intros Hv. apply andb_true_iff in Hv as [Hv _]. auto.
+  - intros Hv. apply andb_true_iff in Hv as [Hv _].
+    rewrite forallb_forall in *. rewrite Forall_forall in H. auto.
+Qed.
+
+Lemma type_size_mod32 t : type_size t mod 32 = 0.
+Proof.
+  induction t using ty_ind'; cbn [type_size]; try reflexivity.
+  - destruct (negb (dynamic t)); [|reflexivity].
+    destruct t; try (apply Z.mod_mul; lia);
+      rewrite Z.mul_mod, IHt, Z.mul_0_r by lia; reflexivity.
+  - destruct (negb (existsb dynamic ts)); [|reflexivity].
+    induction H as [|t r Ht _ IH]; [reflexivity|].
+    cbn [map zsum fold_right]. fold (zsum (map type_size r)).
+    rewrite Z.add_mod, Ht, IH by lia. reflexivity.
+Qed.
+
+Lemma rt_size t : ty_rt t = true -> dynamic t = false -> 32 <= type_size t.
+Proof.
+  induction t using ty_ind'; intros Hrt Hd; cbn [dynamic] in Hd; try discriminate;
+    try (cbn [type_size]; lia).
+  - rewrite type_size_fixed_static by assumption. cbn [ty_rt] in Hrt.
+    apply andb_true_iff in Hrt as [Hrt Hk]. rewrite Hd in Hk. cbn [orb] in Hk.
+    specialize (IHt Hrt Hd). assert (1 <= Z.of_nat k) by (destruct k; [discriminate|lia]). nia.
+  - rewrite type_size_tuple_static by assumption. cbn [ty_rt] in Hrt.
+    apply andb_true_iff in Hrt as [Hrt Hne].
+    destruct ts as [|t r]; [discriminate|].
+    cbn [existsb] in Hd. apply orb_false_iff in Hd as [Hd1 _].
+    cbn [forallb] in Hrt. apply andb_true_iff in Hrt as [Hrt1 _].
+    inversion H as [|? ? Ht _]; subst.
+    cbn [map zsum fold_right]. fold (zsum (map type_size r)).
+    assert (0 <= zsum (map type_size r)).
+    { apply zsum_nonneg, Forall_map, Forall_forall. intros x _. apply type_size_nonneg. }
+    specialize (Ht Hrt1 Hd1). lia.
+Qed.
+
+(* every packed component of a round-trippable type occupies at least 32 bytes *)
+Lemma rt_pack_len t v b :
+  ty_rt t = true -> pack t v = Ok b -> dynamic t = false -> 32 <= zlen b.
+Proof.
+  intros Hrt Hp Hd. rewrite (pack_static_len t v b (ty_rt_newtype t Hrt) Hp Hd).
+  now apply rt_size.
+Qed.
+
+(* ------------------------------------------------------------------ *)
+(* round trip: unpack (pack v) = v                                     *)
+
+Definition dec_P (t : ty) : Prop :=
+  forall v b, ty_rt t = true -> val_rt t v = true -> pack t v = Ok b ->
+  forall idx off out, zlen out < 2 ^ 63 -> placedp (dynamic t) b idx off out ->
+  to_go_type t idx out = Ok v.
+
+Lemma for_each_ok e out :
+  dec_P e -> ty_rt e = true -> zlen out < 2 ^ 63 ->
+  forall vs ps,
+  Forall2 (fun v (p : part) => fst p = dynamic e /\ pack e v = Ok (snd p)) vs ps ->
+  forallb (val_rt e) vs = true ->
+  forall i off, parts_placed ps i off out ->
+  for_each_loop (fun i => to_go_type e i out) i (type_size e) (length vs) = Ok vs.
+Proof.
+  intros He Hrt Hout vs ps HF. induction HF as [|v [d b] vs' ps' [Hd Hb] _ IH]; intros Hv i off Hpl.
+  - reflexivity.
+  - cbn [fst snd] in *. subst d. cbn [forallb] in Hv. apply andb_true_iff in Hv as [Hv1 Hv2].
+    cbn [parts_placed] in Hpl. destruct Hpl as [Hp1 Hp2].
+    cbn [length for_each_loop].
+    rewrite (He v b Hrt Hv1 Hb i off out Hout Hp1). cbn [bind].
+    assert (Hstep : i + type_size e = i + (if dynamic e then 32 else zlen b)).
+    { destruct (dynamic e) eqn:Hd; [now rewrite dynamic_type_size|].
+      now rewrite (pack_static_len e v b (ty_rt_newtype e Hrt) Hb Hd). }
+    rewrite Hstep, (IH Hv2 _ _ Hp2). reflexivity.
+Qed.
+
+Lemma virt_step t v b index virt :
+  ty_newtype t = true -> pack t v = Ok b ->
+  (index + 1 +
+   match t with
+   | TFixedArray _ _ | TTuple _ =>
+       if negb (dynamic t) then virt + (type_size t / 32 - 1) else virt
+   | _ => virt
+   end) * 32 = (index + virt) * 32 + (if dynamic t then 32 else zlen b).
+Proof.
+  intros Hnt Hp. pose proof (type_size_mod32 t) as Hm.
+  destruct (dynamic t) eqn:Hd.
+  - destruct t; cbn [negb]; lia.
+  - rewrite (pack_static_len t v b Hnt Hp Hd).
+    destruct t; cbn [negb]; try (cbn [type_size]; lia); lia.
+Qed.
+
+Lemma unpack_fields_ok out : zlen out < 2 ^ 63 ->
+  forall ts, Forall dec_P ts -> forall vs ps index virt off,
+  forallb ty_rt ts = true -> forall2b val_rt ts vs = true ->
+  pack_fields pack ts vs = Ok ps ->
+  parts_placed ps ((index + virt) * 32) off out ->
+  unpack_fields (fun e i => to_go_type e i out) ts index virt = Ok vs.
+Proof.
+  intros Hout ts HF. induction HF as [|t r Ht _ IH]; intros vs ps index virt off Hrt Hv Hp Hpl.
+  - destruct vs; cbn in *; [reflexivity|discriminate].
+  - destruct vs as [|v vs]; cbn [forall2b pack_fields] in *; [discriminate|].
+    cbn [forallb] in Hrt. apply andb_true_iff in Hrt as [Hrt1 Hrt2].
+    apply andb_true_iff in Hv as [Hv1 Hv2].
+    apply bind_ok in Hp as (b & Hb & Hp). apply bind_ok in Hp as (ps' & Hps & Hp).
+    injection Hp as <-. cbn [parts_placed] in Hpl. destruct Hpl as [Hp1 Hp2].
+    cbn [unpack_fields].
+    rewrite (Ht v b Hrt1 Hv1 Hb _ off out Hout Hp1). cbn [bind].
+    rewrite <- (virt_step t v b index virt (ty_rt_newtype t Hrt1) Hb) in Hp2.
+    rewrite (IH vs ps' _ _ _ Hrt2 Hv2 Hps Hp2). reflexivity.
+Qed.
+
+Lemma head_len_ge (ps : list part) :
+  Forall (fun p : part => 32 <= (if fst p then 32 else zlen (snd p))) ps ->
+  32 * zlen ps <= head_len ps.
+Proof.
+  induction 1 as [|[[|] b] r Hd _ IH]; cbn [head_len]; [unfold zlen; cbn; lia| |];
+    cbn in Hd; rewrite zlen_cons; lia.
+Qed.
+
+Lemma elems_sizes e vs ps :
+  ty_rt e = true ->
+  Forall2 (fun v (p : part) => fst p = dynamic e /\ pack e v = Ok (snd p)) vs ps ->
+  Forall (fun p : part => 32 <= (if fst p then 32 else zlen (snd p))) ps.
+Proof.
+  intros Hrt HF. induction HF as [|v [d b] vs' ps' [Hd Hb] _ IH]; constructor; [|exact IH].
+  cbn [fst snd] in *. subst d. destruct (dynamic e) eqn:Hd; [lia|]. eapply rt_pack_len; eauto.
+Qed.
+
+(* forEachUnpack on the body written by the pack loop *)
+Lemma each_body e vs ps post :
+  dec_P e -> ty_rt e = true ->
+  pack_elems (pack e) (dynamic e) vs = Ok ps ->
+  forallb (val_rt e) vs = true ->
+  let body := pack_loop ps (if dynamic e then type_size e * zlen vs else 0) [] [] in
+  zlen (body ++ post) < 2 ^ 63 ->
+  for_each_unpack (fun i => to_go_type e i (body ++ post)) (type_size e) (body ++ post) 0 (zlen vs)
+  = Ok (VList vs) /\ 32 * zlen vs <= zlen body.
+Proof.
+  intros He Hrt Hps Hv body Hout.
+  destruct (elems_parts _ _ _ _ Hps) as [Hf Hl].
+  pose proof (pack_elems_inv _ _ _ _ Hps) as HF.
+  assert (Hsz : 32 * zlen vs <= zlen body).
+  { unfold body. rewrite zlen_pack_loop. rewrite <- Hl.
+    pose proof (head_len_ge ps (elems_sizes e vs ps Hrt HF)). pose proof (zlen_nonneg (tails ps)). lia. }
+  split; [|exact Hsz].
+  unfold for_each_unpack. pose proof (zlen_nonneg vs).
+  replace (zlen vs <? 0) with false by lia.
+  rewrite zlen_app. pose proof (zlen_nonneg post).
+  replace (0 + 32 * zlen vs >? zlen body + zlen post) with false by lia.
+  replace (Z.to_nat (zlen vs)) with (length vs) by (unfold zlen; lia).
+  rewrite (for_each_ok e (body ++ post) He Hrt Hout vs ps HF Hv 0 (head_len ps)); [reflexivity|].
+  apply pack_loop_placed. now apply array_heads.
+Qed.
+
+(* forTupleUnpack / UnpackValues on the body written by the pack loop *)
+Lemma tuple_body ts vs ps post :
+  Forall dec_P ts -> forallb ty_rt ts = true -> forall2b val_rt ts vs = true ->
+  pack_fields pack ts vs = Ok ps ->
+  let body := pack_loop ps (zsum (map type_size ts)) [] [] in
+  zlen (body ++ post) < 2 ^ 63 ->
+  unpack_fields (fun e i => to_go_type e i (body ++ post)) ts 0 0 = Ok vs.
+Proof.
+  intros HF Hrt Hv Hps body Hout.
+  assert (Hnt : forallb ty_newtype ts = true).
+  { rewrite forallb_forall in *. intros x Hx. apply ty_rt_newtype. auto. }
+  assert (Hhl : zsum (map type_size ts) = head_len ps).
+  { symmetry. eapply fields_head_len; eauto. apply Forall_forall. intros t _. apply pack_static_len. }
+  eapply (unpack_fields_ok _ Hout ts HF vs ps 0 0 (head_len ps)); eauto.
+  cbn [Z.add Z.mul]. unfold body. apply pack_loop_placed. now rewrite Hhl.
+Qed.
+
+Lemma static_word out idx b :
+  at_off out idx b -> zlen b = 32 ->
+  (idx + 32 >? zlen out) = false /\ gslice out idx (idx + 32) = Ok b.
+Proof.
+  intros Ha Hl. pose proof (at_off_bound _ _ _ Ha). pose proof (at_off_slice _ _ _ Ha) as S.
+  rewrite Hl in *. split; [lia|exact S].
+Qed.
+
+Lemma some_word out idx :
+  0 <= idx -> idx + 32 <= zlen out -> exists w, gslice out idx (idx + 32) = Ok w /\ zlen w = 32.
+Proof.
+  intros H1 H2. destruct (slice_some out idx (idx + 32)) as (s & Hs & Hl); try lia.
+  exists s. unfold gslice. rewrite Hs. split; [reflexivity|lia].
+Qed.
+
+Lemma zlen_le_app_r {A} (a b : list A) : zlen b <= zlen (a ++ b).
+Proof. rewrite zlen_app. pose proof (zlen_nonneg a). lia. Qed.
+
+Lemma dec_all t : dec_P t.
+Proof.
+  induction t using ty_ind'; intros v b Hrt Hv Hp idx off out Hout Hpl;
+    destruct v; cbn [val_rt] in Hv; try discriminate;
+    cbn [dynamic placedp] in Hpl; cbn [to_go_type].
+  - (* uint *)
+    cbn [pack pack_element] in Hp.
+    assert (b = pack_num z) as ->.
+    { destruct (native_width n); [destruct (in_unsigned n z)|destruct (z <? 0)]; congruence. }
+    destruct (static_word _ _ _ Hpl (zlen_pack_num z)) as [-> ->]. cbn [bind]. now apply read_uint.
+  - (* int *)
+    cbn [pack pack_element] in Hp.
+    assert (b = pack_num z) as ->.
+    { destruct (native_width n); [destruct (in_signed n z)|]; congruence. }
+    destruct (static_word _ _ _ Hpl (zlen_pack_num z)) as [-> ->]. cbn [bind]. now apply read_int.
+  - (* bool *)
+    cbn [pack pack_element] in Hp. injection Hp as <-.
+    destruct (static_word _ _ _ Hpl (zlen_pack_num _)) as [-> ->]. cbn [bind]. apply read_bool_pack.
+  - (* address *)
+    cbn [pack pack_element] in Hp. apply andb_true_iff in Hv as [Hl Hb].
+    rewrite Hl in Hp. injection Hp as <-. apply Nat.eqb_eq in Hl.
+    assert (E : left_pad bs 32 = zeros 12 ++ bs) by (unfold left_pad; now rewrite Hl).
+    rewrite E in *.
+    assert (Hz : zlen (zeros 12 ++ bs) = 32) by (rewrite zlen_app, zlen_zeros; unfold zlen; lia).
+    destruct (static_word _ _ _ Hpl Hz) as [-> ->]. cbn [bind].
+    unfold bytes_to_address. rewrite Hz.
+    pose proof (slice_app_mid (zeros 12) bs []) as S. rewrite app_nil_r in S.
+    rewrite zlen_zeros in S. unfold gslice.
+    replace (32 - 20) with (Z.of_nat 12) by lia.
+    replace (Z.of_nat 12 + zlen bs) with 32 in S by (unfold zlen; lia).
+    now rewrite S.
+  - (* bytes<n> *)
+    cbn [pack pack_element] in Hp. apply andb_true_iff in Hv as [Hl Hb].
+    rewrite Hl in Hp. injection Hp as <-. cbn [ty_rt] in Hrt.
+    assert (Hz : zlen (right_pad bs 32) = 32) by (apply right_pad_len; lia).
+    destruct (static_word _ _ _ Hpl Hz) as [-> ->]. cbn [bind].
+    unfold read_fixed_bytes, right_pad.
+    pose proof (slice_app_mid [] bs (zeros (32 - length bs))) as S. cbn [app] in S.
+    rewrite zlen_nil in S. unfold gslice.
+    replace (Z.of_N n) with (0 + zlen bs) by (unfold zlen; lia). now rewrite S.
+  - (* bytes *)
+    cbn [pack pack_element] in Hp. injection Hp as <-. destruct Hpl as [Hw Hb].
+    pose proof (at_off_bound _ _ _ Hw) as Bw. rewrite zlen_pack_num in Bw.
+    replace (idx + 32 >? zlen out) with false by lia.
+    unfold pack_bytes_slice, right_pad in Hb.
+    rewrite (lpp_placed out idx off (zlen bs) _ Hout Hw Hb)
+      by (rewrite zlen_app; pose proof (zlen_nonneg bs); pose proof (zlen_nonneg (zeros ((length bs + 31) / 32 * 32 - length bs))); lia).
+    cbn [bind].
+    apply at_off_app_r in Hb. rewrite zlen_pack_num in Hb. apply at_off_app_l in Hb.
+    now rewrite (at_off_slice _ _ _ Hb).
+  - (* string *)
+    cbn [pack pack_element] in Hp. injection Hp as <-. destruct Hpl as [Hw Hb].
+    pose proof (at_off_bound _ _ _ Hw) as Bw. rewrite zlen_pack_num in Bw.
+    replace (idx + 32 >? zlen out) with false by lia.
+    unfold pack_bytes_slice, right_pad in Hb.
+    rewrite (lpp_placed out idx off (zlen bs) _ Hout Hw Hb)
+      by (rewrite zlen_app; pose proof (zlen_nonneg bs); pose proof (zlen_nonneg (zeros ((length bs + 31) / 32 * 32 - length bs))); lia).
+    cbn [bind].
+    apply at_off_app_r in Hb. rewrite zlen_pack_num in Hb. apply at_off_app_l in Hb.
+    now rewrite (at_off_slice _ _ _ Hb).
+  - (* T[] *)
+    cbn [ty_rt] in Hrt. cbn [pack] in Hp.
+    apply bind_ok in Hp as (ps & Hps & Hp). injection Hp as <-.
+    destruct Hpl as [Hw Hb].
+    pose proof (at_off_bound _ _ _ Hw) as Bw. rewrite zlen_pack_num in Bw.
+    replace (idx + 32 >? zlen out) with false by lia.
+    rewrite pack_loop_eq in Hb. cbn [app] in Hb.
+    set (offset := if dynamic t then type_size t * zlen vs else 0) in *.
+    assert (Eb : heads_acc ps offset ++ tails ps = pack_loop ps offset [] [])
+      by (now rewrite pack_loop_eq).
+    rewrite Eb in Hb.
+    pose proof (at_off_app_r _ _ _ _ Hb) as Hbody. rewrite zlen_pack_num in Hbody.
+    destruct (at_off_suffix _ _ _ Hbody) as [post Hsuf].
+    pose proof (at_off_bound _ _ _ Hbody) as Bbody.
+    assert (Hsl : zlen (pack_loop ps offset [] [] ++ post) < 2 ^ 63).
+    { apply gslice_ok in Hsuf as (Hl & _). lia. }
+    destruct (each_body t vs ps post IHt Hrt Hps Hv Hsl) as [Hdec Hsz]. fold offset in Hdec, Hsz.
+    rewrite (lpp_placed out idx off (zlen vs) _ Hout Hw Hb)
+      by (pose proof (zlen_nonneg vs); lia).
+    cbn [bind]. rewrite Hsuf. cbn [bind]. exact Hdec.
+  - (* T[k] *)
+    cbn [ty_rt] in Hrt. apply andb_true_iff in Hrt as [Hrt Hk].
+    apply andb_true_iff in Hv as [Hlen Hv].
+    pose proof Hp as Hp0. cbn [pack] in Hp. rewrite Hlen in Hp.
+    apply bind_ok in Hp as (ps & Hps & Hp). injection Hp as <-.
+    apply Nat.eqb_eq in Hlen. subst k.
+    set (offset := if dynamic t then type_size t * zlen vs else 0) in *.
+    destruct (dynamic t) eqn:Hd.
+    + destruct Hpl as [Hw Hb].
+      pose proof (at_off_bound _ _ _ Hw) as Bw. rewrite zlen_pack_num in Bw.
+      pose proof (at_off_bound _ _ _ Hb) as Bb. pose proof (zlen_nonneg (pack_loop ps offset [] [])).
+      replace (idx + 32 >? zlen out) with false by lia.
+      pose proof (at_off_slice _ _ _ Hw) as Sw. rewrite zlen_pack_num in Sw. rewrite Sw. cbn [bind].
+      destruct (last8_pack_num off) as (w8 & Hw8 & Hval); [lia|].
+      rewrite Hw8. cbn [bind]. rewrite Hval.
+      replace (off >? zlen out) with false by lia.
+      destruct (at_off_suffix _ _ _ Hb) as [post Hsuf]. rewrite Hsuf. cbn [bind].
+      assert (Hsl : zlen (pack_loop ps offset [] [] ++ post) < 2 ^ 63).
+      { apply gslice_ok in Hsuf as (Hl & _). lia. }
+      rewrite <- Hd in Hps.
+      pose proof (each_body t vs ps post IHt Hrt Hps Hv) as HB. cbv zeta in HB.
+      rewrite Hd in HB. exact (proj1 (HB Hsl)).
+    + pose proof (at_off_bound _ _ _ Hpl) as Bb.
+      assert (Hge : 32 <= zlen (pack_loop ps offset [] [])).
+      { eapply (rt_pack_len (TFixedArray (length vs) t)); [|exact Hp0|cbn [dynamic]; exact Hd].
+        cbn [ty_rt]. rewrite Hrt, Hd. exact Hk. }
+      replace (idx + 32 >? zlen out) with false by lia.
+      destruct (some_word out idx) as (w & -> & _); [lia|lia|]. cbn [bind].
+      destruct (at_off_suffix _ _ _ Hpl) as [post Hsuf]. rewrite Hsuf. cbn [bind].
+      assert (Hsl : zlen (pack_loop ps offset [] [] ++ post) < 2 ^ 63).
+      { apply gslice_ok in Hsuf as (Hl & _). lia. }
+      rewrite <- Hd in Hps.
+      pose proof (each_body t vs ps post IHt Hrt Hps Hv) as HB. cbv zeta in HB.
+      rewrite Hd in HB. exact (proj1 (HB Hsl)).
+  - (* tuple *)
+    cbn [ty_rt] in Hrt. apply andb_true_iff in Hrt as [Hrt Hne].
+    pose proof Hp as Hp0. cbn [pack] in Hp.
+    apply bind_ok in Hp as (ps & Hps & Hp). injection Hp as <-.
+    destruct (existsb dynamic ts) eqn:Hd.
+    + destruct Hpl as [Hw Hb].
+      pose proof (at_off_bound _ _ _ Hw) as Bw. rewrite zlen_pack_num in Bw.
+      replace (idx + 32 >? zlen out) with false by lia.
+      pose proof (at_off_slice _ _ _ Hw) as Sw. rewrite zlen_pack_num in Sw. rewrite Sw. cbn [bind].
+      rewrite (tpt_placed out idx off _ Hout Hw Hb). cbn [bind].
+      destruct (at_off_suffix _ _ _ Hb) as [post Hsuf]. rewrite Hsuf. cbn [bind].
+      assert (Hsl : zlen (pack_loop ps (zsum (map type_size ts)) [] [] ++ post) < 2 ^ 63).
+      { apply gslice_ok in Hsuf as (Hl & _). pose proof (at_off_bound _ _ _ Hb). lia. }
+      now rewrite (tuple_body ts vs ps post H Hrt Hv Hps Hsl).
+    + pose proof (at_off_bound _ _ _ Hpl) as Bb.
+      assert (Hge : 32 <= zlen (pack_loop ps (zsum (map type_size ts)) [] [])).
+      { eapply (rt_pack_len (TTuple ts)); [|exact Hp0|cbn [dynamic]; exact Hd].
+        cbn [ty_rt]. now rewrite Hrt, Hne. }
+      replace (idx + 32 >? zlen out) with false by lia.
+      destruct (some_word out idx) as (w & -> & _); [lia|lia|]. cbn [bind].
+      destruct (at_off_suffix _ _ _ Hpl) as [post Hsuf]. rewrite Hsuf. cbn [bind].
+      assert (Hsl : zlen (pack_loop ps (zsum (map type_size ts)) [] [] ++ post) < 2 ^ 63).
+      { apply gslice_ok in Hsuf as (Hl & _). lia. }
+      now rewrite (tuple_body ts vs ps post H Hrt Hv Hps Hsl).
+Qed.
+
+(* ------------------------------------------------------------------ *)
+(* top level                                                           *)
+
+Lemma fields_head_ge ts : forall vs ps,
+  forallb ty_rt ts = true -> pack_fields pack ts vs = Ok ps -> ts <> [] -> 32 <= head_len ps.
+Proof.
+  intros vs ps Hrt Hp Hne. destruct ts as [|t r]; [congruence|].
+  destruct vs as [|v vs]; cbn [pack_fields] in Hp; [discriminate|].
+  cbn [forallb] in Hrt. apply andb_true_iff in Hrt as [Hrt1 _].
+  apply bind_ok in Hp as (b & Hb & Hp). apply bind_ok in Hp as (ps' & Hps & Hp).
+  injection Hp as <-. pose proof (head_len_nonneg ps').
+  destruct (dynamic t) eqn:Hd; cbn [head_len]; [lia|].
+  pose proof (rt_pack_len t v b Hrt1 Hb Hd). lia.
+Qed.
+
+Lemma unpack_pack_args ts vs b :
+  forallb ty_rt ts = true -> forall2b val_rt ts vs = true ->
+  pack_args ts vs = Ok b -> zlen b < 2 ^ 63 ->
+  unpack_args ts b = Ok vs.
+Proof.
+  intros Hrt Hv Hp Hlen. unfold pack_args in Hp.
+  apply bind_ok in Hp as (ps & Hps & Hp). injection Hp as <-.
+  set (body := pack_loop ps (zsum (map type_size ts)) [] []) in *.
+  assert (HF : Forall dec_P ts) by (apply Forall_forall; intros t _; apply dec_all).
+  assert (Hb : unpack_fields (fun e i => to_go_type e i body) ts 0 0 = Ok vs).
+  { pose proof (tuple_body ts vs ps [] HF Hrt Hv Hps) as H. cbv zeta in H.
+    rewrite app_nil_r in H. apply H. exact Hlen. }
+  unfold unpack_args, unpack_values. destruct body as [|x body'] eqn:Eb; [|exact Hb].
+  destruct ts as [|t r].
+  - destruct vs; cbn in Hps; [reflexivity|discriminate].
+  - exfalso. assert (H32 : 32 <= head_len ps) by (eapply fields_head_ge; eauto; discriminate).
+    assert (Hz : zlen body = head_len ps + zlen (tails ps)) by apply zlen_pack_loop.
+    rewrite Eb, zlen_nil in Hz. pose proof (zlen_nonneg (tails ps)). lia.
+Qed.
+
+Lemma in_unsigned_width n z :
+  (n <= 256)%N -> in_unsigned n z = true -> in_unsigned (int_width n) z = true.
+Proof.
+  unfold int_width. destruct (native_width n); [auto|]. unfold in_unsigned. intros Hn H.
+  assert (2 ^ Z.of_N n <= 2 ^ Z.of_N 256) by (apply Z.pow_le_mono_r; lia). lia.
+Qed.
+
+Lemma in_signed_width n z :
+  (1 <= n)%N -> (n <= 256)%N -> in_signed n z = true -> in_signed (int_width n) z = true.
+Proof.
+  unfold int_width. destruct (native_width n); [auto|]. unfold in_signed. intros H1 Hn H.
+  assert (2 ^ (Z.of_N n - 1) <= 2 ^ (Z.of_N 256 - 1)) by (apply Z.pow_le_mono_r; lia). lia.
+Qed.
+
+Lemma forallb_impl {A} (f g : A -> bool) l :
+  (forall x, f x = true -> g x = true) -> forallb f l = true -> forallb g l = true.
+Proof. intros H. rewrite !forallb_forall. auto. Qed.
+
+(* ABI-typed values are Go-representable *)
+Lemma wf_val_rt t : forall v, ty_valid t = true -> wf_value t v = true -> val_rt t v = true.
+Proof.
+  induction t using ty_ind'; intros v Hv Hw; destruct v; cbn [wf_value] in Hw; try discriminate;
+    cbn [val_rt]; cbn [ty_valid] in Hv; auto.
+  - apply in_unsigned_width; [lia|exact Hw].
+  - apply in_signed_width; [lia|lia|exact Hw].
+  - eapply forallb_impl; [|exact Hw]. auto.
+  - apply andb_true_iff in Hw as [-> Hw]. cbn [andb]. eapply forallb_impl; [|exact Hw]. auto.
+  - revert vs Hw. induction H as [|t r Ht _ IH]; intros [|v vs] Hw; cbn [forall2b] in *; auto.
+    cbn [forallb] in Hv. apply andb_true_iff in Hv as [Hv1 Hv2].
+    apply andb_true_iff in Hw as [H1 H2]. rewrite (Ht _ Hv1 H1). cbn [andb]. auto.
+Qed.
+
+Lemma ty_rt_valid t : ty_rt t = true -> ty_valid t = true.
+Proof.
+  induction t using ty_ind'; cbn [ty_rt ty_valid]; auto.
+  - intros Hv. apply andb_true_iff in Hv as [Hv _]. auto.
+  - intros Hv. apply andb_true_iff in Hv as [Hv _].
+    rewrite forallb_forall in *. rewrite Forall_forall in H. auto.
+Qed.
+
+Lemma forallb_rt_valid ts : forallb ty_rt ts = true -> forallb ty_valid ts = true.
+Proof. apply forallb_impl. apply ty_rt_valid. Qed.
+
+(* the property at the level of Arguments.Pack / Arguments.Unpack *)
+Lemma unpack_pack_wf ts vs :
+  forallb ty_rt ts = true -> forall2b wf_value ts vs = true ->
+  exists b, enc_args ts vs = Some b /\ pack_args ts vs = Ok b /\
+            (zlen b < 2 ^ 63 -> unpack_args ts b = Ok vs).
+Proof.
+  intros Hrt Hw. pose proof (forallb_rt_valid ts Hrt) as Hval.
+  destruct (enc_total (TTuple ts) (VList vs) Hw) as [b He].
+  pose proof (pack_args_eq_spec ts vs b Hval He) as Hp.
+  exists b. split; [exact He|]. split; [exact Hp|]. intros Hlen.
+  apply unpack_pack_args; auto.
+  exact (wf_val_rt (TTuple ts) (VList vs) Hval Hw).
+Qed.
+
+(* ------------------------------------------------------------------ *)
+(* which padding the decoder checks: elementary types, one word        *)
+
+Lemma gslice_eq l lo hi :
+  0 <= lo -> lo <= hi -> hi <= zlen l ->
+  gslice l lo hi = Ok (firstn (Z.to_nat (hi - lo)) (skipn (Z.to_nat lo) l)).
+Proof.
+  intros. unfold gslice, slice.
+  replace ((0 <=? lo) && (lo <=? hi) && (hi <=? zlen l)) with true by lia. reflexivity.
+Qed.
+
+Lemma gslice_all l : gslice l 0 (zlen l) = Ok l.
+Proof.
+  rewrite gslice_eq by (pose proof (zlen_nonneg l); lia).
+  cbn [Z.to_nat skipn]. rewrite Z.sub_0_r. unfold zlen. rewrite Nat2Z.id. now rewrite firstn_all.
+Qed.
+
+Lemma pack_num_be_val w : zlen w = 32 -> forallb byteb w = true ->
+  forall z, z mod 2 ^ 256 = Z.of_N (be_val w) -> pack_num z = w.
+Proof.
+  intros Hl Hb z Hz. unfold pack_num. rewrite Hz, N2Z.id.
+  replace 32%nat with (length w) by (unfold zlen in Hl; lia). now apply be_bytes_be_val.
+Qed.
+
+Lemma be_val_word_bound w : zlen w = 32 -> forallb byteb w = true ->
+  0 <= Z.of_N (be_val w) < 2 ^ 256.
+Proof.
+  intros Hl Hb. pose proof (be_val_bound w Hb) as H.
+  replace (length w) with 32%nat in H by (unfold zlen in Hl; lia).
+  rewrite pow256_32 in H. lia.
+Qed.
+
+Lemma read_uint_inv n w v :
+  read_integer true n w = Ok v ->
+  v = VInt (Z.of_N (be_val w)) /\
+  (native_width n = true -> in_unsigned n (Z.of_N (be_val w)) = true).
+Proof.
+  destruct (native_width n) eqn:En.
+  - unfold read_integer, in_unsigned.
+    destruct (native_cases n En) as [->|[->|[->| ->]]]; cbn [Z.of_N];
+      (dif; [discriminate|]); intros [= <-]; (split; [reflexivity|]); intros _; lia.
+  - rewrite read_uint_big by assumption. intros [= <-]. split; [reflexivity|discriminate].
+Qed.
+
+Lemma read_int_inv n w v :
+  read_integer false n w = Ok v ->
+  let x := Z.of_N (be_val w) in
+  let z := if Z.testbit x 255 then - (((2 ^ 256 - 1) + (- x)) + 1) else x in
+  v = VInt z /\ (native_width n = true -> in_signed n z = true).
+Proof.
+  cbv zeta. destruct (native_width n) eqn:En.
+  - unfold read_integer, in_signed.
+    destruct (native_cases n En) as [->|[->|[->| ->]]]; cbn [Z.of_N];
+      (dif; [discriminate|]); intros [= <-]; (split; [reflexivity|]); intros _; lia.
+  - rewrite read_int_big by assumption. cbv zeta. intros [= <-]. split; [reflexivity|discriminate].
+Qed.
+
+Lemma all_zero_zeros l :
+  existsb (fun b => negb (b =? 0)%N) l = false -> l = zeros (length l).
+Proof.
+  induction l as [|x l IH]; cbn [existsb length]; [reflexivity|]. intros H.
+  apply orb_false_iff in H as [Hx Hl]. cbn [zeros repeat]. f_equal; [lia|]. now apply IH.
+Qed.
+
+Lemma read_bool_inv w v : zlen w = 32 -> read_bool w = Ok v ->
+  exists b : bool, v = VBool b /\ w = pack_num (if b then 1 else 0).
+Proof.
+  intros Hl. unfold read_bool. rewrite gslice_eq by lia. cbn [bind Z.to_nat skipn].
+  change (Z.to_nat (31 - 0)) with 31%nat.
+  destruct (existsb _ (firstn 31 w)) eqn:Ez; [discriminate|].
+  apply all_zero_zeros in Ez. rewrite firstn_length in Ez.
+  replace (Nat.min 31 (length w)) with 31%nat in Ez by (unfold zlen in Hl; lia).
+  destruct (nth_error w 31) as [x|] eqn:En; [|discriminate].
+  assert (Hw : w = zeros 31 ++ [x]).
+  { rewrite <- (firstn_skipn 31 w) at 1. rewrite Ez. f_equal.
+    apply nth_error_split in En as (l1 & l2 & -> & Hl1).
+    rewrite skipn_app, skipn_all2 by lia. rewrite Hl1, Nat.sub_diag. cbn [skipn app].
+    unfold zlen in Hl. rewrite app_length in Hl. cbn [length] in Hl.
+    destruct l2; [reflexivity|cbn [length] in Hl; lia]. }
+  destruct x as [|[p|p|]]; try discriminate; intros [= <-].
+  - exists false. split; [reflexivity|]. rewrite Hw. reflexivity.
+  - exists true. split; [reflexivity|]. rewrite Hw. reflexivity.
+Qed.
+
+Lemma canonical_word t w v :
+  zlen w = 32 -> forallb byteb w = true -> to_go_type t 0 w = Ok v ->
+  match t with
+  | TUInt _ | TInt _ | TBool => pack t v = Ok w
+  | TAddress => pack t v = Ok (zeros 12 ++ skipn 12 w)
+  | TFixedBytes n => (n <= 32)%N -> pack t v = Ok (firstn (N.to_nat n) w ++ zeros (32 - N.to_nat n))
+  | _ => True
+  end.
+Proof.
+  intros Hl Hb. pose proof (be_val_word_bound w Hl Hb) as Hx.
+  destruct t; try exact (fun _ => I); cbn [to_go_type]; rewrite Hl; cbn [Z.add Z.gtb Z.compare Pos.compare Pos.compare_cont];
+    change (0 + 32) with 32; rewrite <- Hl at 1; rewrite gslice_all; cbn [bind]; intros H.
+  - apply read_uint_inv in H as [-> Hr]. cbn [pack pack_element].
+    rewrite (pack_num_be_val w Hl Hb) by (apply Z.mod_small; lia).
+    destruct (native_width n); [now rewrite Hr|]. now replace (Z.of_N (be_val w) <? 0) with false by lia.
+  - apply read_int_inv in H as [-> Hr]. cbn [pack pack_element].
+    set (x := Z.of_N (be_val w)) in *.
+    rewrite (pack_num_be_val w Hl Hb).
+    + destruct (native_width n); [now rewrite Hr|reflexivity].
+    + fold x. rewrite testbit_255 by assumption.
+      destruct (2 ^ 255 <=? x) eqn:E.
+      * replace (- (2 ^ 256 - 1 + - x + 1)) with (x + (-1) * 2 ^ 256) by lia.
+        rewrite Z.mod_add by lia. apply Z.mod_small; lia.
+      * apply Z.mod_small; lia.
+  - apply read_bool_inv in H as (b & -> & Hw); [|exact Hl]. cbn [pack pack_element]. now rewrite <- Hw.
+  - unfold bytes_to_address in H. rewrite Hl in H. rewrite gslice_eq in H by lia.
+    cbn [bind] in H. injection H as <-.
+    change (Z.to_nat (32 - (32 - 20))) with 20%nat. change (Z.to_nat (32 - 20)) with 12%nat.
+    assert (Hsl : length (skipn 12 w) = 20%nat) by (rewrite skipn_length; unfold zlen in Hl; lia).
+    rewrite <- Hsl at 1. rewrite firstn_all. cbn [pack pack_element]. rewrite Hsl. reflexivity.
+  - intros Hn. unfold read_fixed_bytes in H. rewrite gslice_eq in H by lia.
+    cbn [bind Z.to_nat skipn] in H. injection H as <-. rewrite Z.sub_0_r, Z_N_nat.
+    cbn [pack pack_element].
+    assert (Hfl : length (firstn (N.to_nat n) w) = N.to_nat n)
+      by (rewrite firstn_length; unfold zlen in Hl; lia).
+    rewrite Hfl, N2Nat.id, N.eqb_refl. unfold right_pad. now rewrite Hfl.
+Qed.
